@@ -3,7 +3,7 @@ import json, os
 import vf
 
 DEFS = r'''
-Sh == {"null", "int", "float", "string", "bool", "array", "object"}
+Sh == {"null", "int", "float", "string", "bool", "array", "object", "arraynull"}
 Vecs(n) == UNION {[1..k -> Sh] : k \in 0..n}
 AllVecs == Vecs(%d)
 EmitInv == (outcome # "pending") => PrintT(<<"CASE", ToJson([call |-> call, outcome |-> outcome])>>)
@@ -20,7 +20,8 @@ def run(ck, tier, seed):
     ]
     work = vf.scratch("verif-c12-")
     mpath = os.path.join(work, "methods.json")
-    rc, txt = vf.go_test("pkg/interpreter", ["provider_test.go"], run="TestVerifProviderMethods$", env={"VERIF_OUT": mpath}, timeout=900)
+    alt = {os.path.join(vf.REPO, "pkg/interpreter/zzverifalt/alt.go"): os.path.join(vf.ROOT, "inject/pkg/interpreter/zzverifalt/alt.go")}
+    rc, txt = vf.go_test("pkg/interpreter", ["provider_test.go"], run="TestVerifProviderMethods$", env={"VERIF_OUT": mpath}, timeout=900, extra_overlay=alt)
     if rc != 0 or not os.path.exists(mpath):
         raise vf.InfraError("method table failed rc=%s\n%s" % (rc, txt[-2000:]))
     methods = json.load(open(mpath))
@@ -42,7 +43,15 @@ def run(ck, tier, seed):
     path = os.path.join(work, "cases.ndjson")
     vf.write_ndjson(path, cases)
     out = path + ".out"
-    rc, txt = vf.go_test("pkg/interpreter", ["provider_test.go"], run="TestVerifProviderReplay$", env={"VERIF_CASES": path, "VERIF_OUT": out}, timeout=3000)
+    # one process: every call on the first provider, then every call on the second (same unqualified type name,
+    # other package, other methods), then the first again - the decision must not depend on what was called before
+    cases.sort(key=lambda c: c["call"]["m"]["prov"])
+    again = [dict(c) for c in cases if c["call"]["m"]["prov"] == 0 and c["call"]["spelling"] == "exact" and c["call"]["form"] == "method"]
+    cases = cases + again
+    for i, c in enumerate(cases):
+        c["id"] = i
+    vf.write_ndjson(path, cases)
+    rc, txt = vf.go_test("pkg/interpreter", ["provider_test.go"], run="TestVerifProviderReplay$", env={"VERIF_CASES": path, "VERIF_OUT": out}, timeout=3000, extra_overlay=alt)
     res = vf.read_ndjson(out)
     summ = [x for x in res if x.get("summary")]
     if not summ or summ[0]["cases"] != len(cases):
@@ -60,7 +69,7 @@ def run(ck, tier, seed):
         call = c["call"]
         kind = "crash" if m["what"].startswith("crash") else ("reached-unlisted" if (not call["m"]["allowed"] and "reached" in m["what"]) else
                                                                ("field-invokes" if call["form"] == "field" else "decision"))
-        sig = "%s/%s/%s/%s" % (kind, call["form"], "allowed" if call["m"]["allowed"] else "unlisted", c["outcome"])
+        sig = "%s/%s/%s/%s%s" % (kind, call["form"], "allowed" if call["m"]["allowed"] else "unlisted", c["outcome"], "/second-provider" if call["m"]["prov"] == 1 else "")
         if sig in seen:
             continue
         seen.add(sig)
